@@ -1717,8 +1717,8 @@ func (sa *Application) SetQueue(queue *Queue) {
 
 // remove the leaf queue the application runs in, used when completing the app
 func (sa *Application) UnSetQueue() {
-	if sa.queue != nil {
-		sa.queue.RemoveApplication(sa)
+	if queue := sa.GetQueue(); queue != nil {
+		queue.RemoveApplication(sa)
 	}
 	sa.Lock()
 	defer sa.Unlock()
